@@ -1865,6 +1865,13 @@ class Cluster(object):
                 self._cleanup_failed_on_up_handling(host)
                 return
 
+            if self.metadata.get_host(host.endpoint) is not host:
+                # the host was removed from the cluster while its pools were being opened
+                log.debug("Node %s was removed while being marked up, discarding its pools", host)
+                for session in tuple(self.sessions):
+                    session.remove_pool(host)
+                return
+
             log.info("Connection pools established for node %s", host)
             # mark the host as up and notify all listeners
             host.set_up()
